@@ -130,3 +130,17 @@ check('C09',
       TB + 'For a permuted asset list only value, status and per-asset blocks are compared (optimal dispatch need not be unique); the '
       'general statement for permutations with nodal coupling is checked per instance, the theorem covers block swaps of direct sums.',
       'Coq proof (equivariance) + differential correspondence + metamorphic implementation oracle', 'DESIGN.md 5 C09')
+check('C12',
+      'Theorems (any grid points, hence any step lengths, any positive unit factor k): step lengths in a unit k times as long are the old '
+      'ones divided by k; a rate multiplied by k gives the same per-step limit / cost; a duration divided by k compares with the step '
+      'lengths as before; the discount exponent (cumulative time x unit) is unit free; the step lengths add up to the elapsed time '
+      'between first and last point; the total limit of a constant rate is rate x total time. On the implementation every generated '
+      'portfolio (contracts in all parameter forms, transports, storages with inflow / holding cost / holding duration, order books, '
+      'scaled assets, coarse and periodic assets, DST nights, daily grids over DST switches in CET and US/Eastern) is rebuilt in '
+      'another main unit with rates, holding costs, durations and fixed costs re-expressed: cost vector, bounds, rows, right-hand '
+      'sides, mapping factors and optimum must agree to 1e-9; limits of constant-rate assets must add up to rate x elapsed calendar '
+      'time; the model builders are compared with the implementation in both units.',
+      TB + 'Durations are generated strictly between step boundaries: a comparison sitting exactly on a boundary may flip by floating-point '
+      'rounding when the duration is divided by 24 or 60, which is outside the exact model. Plant / CHP ramps and run times are '
+      'covered under C06.',
+      'Coq proof + metamorphic implementation oracle (unit change) + differential correspondence', 'DESIGN.md 5 C12')
